@@ -679,38 +679,42 @@ func c07PanicTyping(w *World, r *Report) {
 		fd, _ := w.FuncDecl(f)
 		ok := true
 		k := 0
-		ast.Inspect(fd.Body, func(x ast.Node) bool {
-			ce, isC := x.(*ast.CallExpr)
-			if !isC {
-				return true
-			}
-			if id, isI := ce.Fun.(*ast.Ident); !isI || id.Name != "panic" {
-				return true
-			}
-			k++
-			// panic(fmt.Errorf("%s: %s", s, e)) where s comes from ErrorContext*/ErrorContextPosition
-			inner, isE := ce.Args[0].(*ast.CallExpr)
-			if !isE || len(inner.Args) < 2 {
-				ok = false
-				return true
-			}
-			locObj := objOfIdent(p, inner.Args[1])
-			fromCtx := false
-			ast.Inspect(fd.Body, func(y ast.Node) bool {
-				if as, isA := y.(*ast.AssignStmt); isA && len(as.Rhs) == 1 && objOfIdent(p, as.Lhs[0]) == locObj {
-					if c2, isC2 := as.Rhs[0].(*ast.CallExpr); isC2 {
-						if c := calleeOf(p, c2); c != nil && strings.HasPrefix(nm(c), "ErrorContext") {
-							fromCtx = true
+		// the function and the helpers of the package it hands part of its work to
+		for _, cfd := range localHelperDecls(w, p, f) {
+			fd := cfd
+			ast.Inspect(fd.Body, func(x ast.Node) bool {
+				ce, isC := x.(*ast.CallExpr)
+				if !isC {
+					return true
+				}
+				if id, isI := ce.Fun.(*ast.Ident); !isI || id.Name != "panic" {
+					return true
+				}
+				k++
+				// panic(fmt.Errorf("%s: %s", s, e)) where s comes from ErrorContext*/ErrorContextPosition
+				inner, isE := ce.Args[0].(*ast.CallExpr)
+				if !isE || len(inner.Args) < 2 {
+					ok = false
+					return true
+				}
+				locObj := objOfIdent(p, inner.Args[1])
+				fromCtx := false
+				ast.Inspect(fd.Body, func(y ast.Node) bool {
+					if as, isA := y.(*ast.AssignStmt); isA && len(as.Rhs) == 1 && objOfIdent(p, as.Lhs[0]) == locObj {
+						if c2, isC2 := as.Rhs[0].(*ast.CallExpr); isC2 {
+							if c := calleeOf(p, c2); c != nil && strings.HasPrefix(nm(c), "ErrorContext") {
+								fromCtx = true
+							}
 						}
 					}
+					return true
+				})
+				if !fromCtx {
+					ok = false
 				}
 				return true
 			})
-			if !fromCtx {
-				ok = false
-			}
-			return true
-		})
+		}
 		r.Check(ok && k > 0, "R07.3", "Tree."+m+" panics carry the statement's location", fd.Pos(), "prefixed with ErrorContext()", "a semantic error raised here is not prefixed with the statement's file:line:column")
 	}
 }
@@ -846,4 +850,44 @@ func c07WordStops(w *World) (stops ISet, ok bool) {
 		}
 	}
 	return nil, false
+}
+
+// localHelperDecls: the declaration of f and of the unexported plain functions
+// and methods of its package that it calls directly and that nothing else in
+// the package calls (work moved out of f).
+func localHelperDecls(w *World, p *packages.Package, f *types.Func) []*ast.FuncDecl {
+	fd, _ := w.FuncDecl(f)
+	out := []*ast.FuncDecl{fd}
+	if fd == nil {
+		return nil
+	}
+	for _, ce := range callsIn(p, fd.Body) {
+		g := calleeOf(p, ce)
+		if g == nil || g.Pkg() != f.Pkg() || g.Exported() || g == f {
+			continue
+		}
+		if sig, ok := g.Type().(*types.Signature); ok && sig.Recv() != nil && types.IsInterface(sig.Recv().Type()) {
+			continue // a method of an interface has no body here
+		}
+		gfd, gp := w.FuncDecl(g)
+		if gfd == nil || gp != p {
+			continue
+		}
+		users := 0
+		for _, fd2 := range funcDecls(p) {
+			if fd2 != gfd && fd2.Body != nil && len(allCallsTo(p, fd2.Body, g)) > 0 {
+				users++
+			}
+		}
+		if users == 1 {
+			dup := false
+			for _, o := range out {
+				dup = dup || o == gfd
+			}
+			if !dup {
+				out = append(out, gfd)
+			}
+		}
+	}
+	return out
 }
